@@ -394,6 +394,44 @@ def main():
         A = spd if len(bshape) < 3 else onp.stack([spd, spd + onp.eye(3)])
         ror("linalg.solve(A,b%r) wrt A" % (bshape,), lambda z, Bm=Bm: anp.linalg.solve(z, Bm), A)
         ror("linalg.solve(A,b%r) wrt b" % (bshape,), lambda z, A=A: anp.linalg.solve(A, z), Bm)
+
+    # ---- (D) several differentiated positional arguments at once: a rule missing for ONE of them must not be
+    #      swallowed because another one has a rule ----
+    T2 = [("f(a(x),x)", lambda f, z: f(z * 1.5 + 0.1, z)), ("f(x,a(x))", lambda f, z: f(z, z * 0.5 - 0.2)),
+          ("f(x,x)", lambda f, z: f(z, z)), ("f(a(x),b(x),x)", lambda f, z: f(z * 1.5 + 0.1, 0.5 * z - 0.2, z)),
+          ("f(x,a(x),b(x))", lambda f, z: f(z, z * 1.5 + 0.1, 0.5 * z + 2.0)),
+          ("f(c,a(x),x)", lambda f, z: f(onp.arange(onp.size(z)).reshape(onp.shape(z)) % 2 == 0, z * 1.5, z))]
+    always = {"clip", "where", "gradient", "full", "prod", "std", "var", "repeat", "pad", "maximum", "minimum", "fmax", "fmin",
+              "power", "arctan2", "hypot", "logaddexp", "logaddexp2", "dot", "matmul", "tensordot", "outer", "inner", "kron",
+              "cross", "convolve", "append", "true_divide", "divide", "multiply", "subtract", "add", "mod", "remainder", "select",
+              "linalg.solve", "einsum", "tile", "roll", "take", "interp", "copysign", "ldexp", "heaviside", "nextafter", "fmod",
+              "float_power", "trapz", "trapezoid", "diff", "percentile", "quantile", "average", "cov", "corrcoef", "correlate",
+              "searchsorted", "digitize", "polyval", "vdot", "putmask", "choose", "compress", "extract", "insert", "delete"}
+    frac = 1.0 if cfg.get("tier") == "thorough" else 0.2
+    xv, xm = onp.array([0.7, 1.3, 2.1]), onp.array([[2.3, 0.7], [0.4, 1.9]])
+    for full, f, fnp in names:
+        if only and full not in only:
+            continue
+        if full not in always and rng.random() > frac:
+            continue
+        # never hand a differentiated array to a positional `out` parameter
+        if isinstance(fnp, onp.ufunc):
+            max_pos = fnp.nin
+        else:
+            try:
+                import inspect
+                ps = list(inspect.signature(fnp).parameters.values())
+                names_ = [q.name for q in ps if q.kind in (q.POSITIONAL_ONLY, q.POSITIONAL_OR_KEYWORD)]
+                max_pos = names_.index("out") if "out" in names_ else len(names_)
+                if any(q.kind == q.VAR_POSITIONAL for q in ps):
+                    max_pos = 3
+            except (TypeError, ValueError):
+                max_pos = 2
+        for tag, call in T2:
+            if tag.count(",") + 1 > max_pos:
+                continue
+            for xn, x0 in (("vec", xv), ("mat", xm)):
+                ror("%s %s[%s]" % (full, tag, xn), (lambda z, f=f, call=call: call(f, z)), x0)
     out["keys"] = sorted(set(out["keys"]))
     print(json.dumps(out, default=str))
 
